@@ -460,6 +460,60 @@ func runC07(c *ev.Ctx) {
 	for k, v := range <-resCh {
 		res[k] = v
 	}
+	// several detections at the same time in one process (each on its own source): a slow good run
+	// overlapped by a fast failing run of the same shape, and the other way round
+	{
+		r := gen.NewRng(gen.Mix(seed, 7779))
+		var groups [][]Scn
+		pairs := [][2]string{{"Period", "Period"}, {"PowerOn", "PowerOn"}, {"Period", "PeriodFast"}, {"PowerOn", "PowerOnFast"}, {"Period", "PowerOn"}, {"Factory", "Factory"}}
+		for pi, pr := range pairs {
+			if pr[0] == "Factory" && !c.Thorough() {
+				continue
+			}
+			for flip := 0; flip < 2; flip++ {
+				wa, wb := workflows[pr[0]], workflows[pr[1]]
+				good := baseMatrix(r, wa.S, wa.Items)
+				for i := 0; i < wa.Items; i++ {
+					setPassCount(r, good, i, oracle.Threshold(wa.S))
+				}
+				bad := baseMatrix(r, wb.S, wb.Items)
+				for i := 0; i < wb.Items; i++ {
+					for j := range bad {
+						bad[j][i].Q = 0.95 // every Q in one bin: uniformity fails for every item
+					}
+				}
+				a := Scn{WF: pr[0], Stream: Stream{Kind: "matrix", Seed: r.U64(), Matrix: good}, Stub: true, Chunk: mon.ChunkPlan{Kind: "whole"}, Delay: mon.DelayPlan{Mode: "slow", Seed: r.U64()}, Note: fmt.Sprintf("concurrent callers: slow %s on an accepted stream while %s judges a failing one", pr[0], pr[1])}
+				b := Scn{WF: pr[1], Stream: Stream{Kind: "matrix", Seed: r.U64(), Matrix: bad}, Stub: true, Chunk: mon.ChunkPlan{Kind: "whole"}, Note: fmt.Sprintf("concurrent callers: fast %s on a failing stream", pr[1])}
+				if flip == 1 {
+					a.Stream.Matrix, b.Stream.Matrix = bad, good
+					if wa.S != wb.S || wa.Items != wb.Items {
+						continue
+					}
+					a.Note = fmt.Sprintf("concurrent callers: slow %s on a failing stream while %s judges an accepted one", pr[0], pr[1])
+					b.Note = fmt.Sprintf("concurrent callers: fast %s on an accepted stream", pr[1])
+				}
+				id++
+				a.ID = id
+				id++
+				b.ID = id
+				// the fast run is started three times so that one of them falls inside the slow run's span
+				b2, b3 := b, b
+				id++
+				b2.ID = id
+				b2.Delay = mon.DelayPlan{Mode: "sleep", Seed: r.U64()}
+				id++
+				b3.ID = id
+				b3.Delay = mon.DelayPlan{Mode: "slow", Seed: r.U64()}
+				groups = append(groups, []Scn{a, b, b2, b3})
+				scns = append(scns, a, b, b2, b3)
+				_ = pi
+			}
+		}
+		for k, v := range runConcGroups(groups, "c07conc", false) {
+			res[k] = v
+		}
+		c.Count("concurrent_caller_groups", int64(len(groups)))
+	}
 	byID := map[int]Scn{}
 	for _, s := range scns {
 		byID[s.ID] = s
@@ -470,7 +524,7 @@ func runC07(c *ev.Ctx) {
 			c.Inconclusive("no result for scenario " + sc.Note)
 			continue
 		}
-		nontriv := !sc.Stub || strings.Contains(sc.Note, "uniformity") || strings.Contains(sc.Note, "fails") || strings.Contains(sc.Note, "step2")
+		nontriv := !sc.Stub || strings.Contains(sc.Note, "uniformity") || strings.Contains(sc.Note, "concurrent callers") || strings.Contains(sc.Note, "fails") || strings.Contains(sc.Note, "step2")
 		if strings.Contains(sc.Note, "passcount=") {
 			var i, cnt, T int
 			fmt.Sscanf(sc.Note, "item%d passcount=%d (T=%d)", &i, &cnt, &T)
